@@ -436,10 +436,6 @@ func (s *Sys) runCall(c *Call) {
 			}
 			c.Returned = true
 			c.RetStep = s.K.StepN
-			if s.Plan.Knobs.CancelLate == 0 || c.Probe {
-				c.cancelled = true
-				cancel()
-			}
 			if s.Rec != nil && !c.Probe {
 				s.Rec.OnReturn(c)
 			}
@@ -575,10 +571,28 @@ func (s *Sys) fireFaults() bool {
 	return fired
 }
 
+// promptCancels cancels the context of every returned call whose cancellation is not delayed by the plan. gRPC cancels a
+// handler's context right after the handler returns; doing it after the window in which the handler returned (never
+// inside it) keeps "event already queued for the watcher" and "context done" from racing.
+func (s *Sys) promptCancels() {
+	did := false
+	for _, c := range append(append([]*Call{}, s.Calls...), s.Probes...) {
+		if c != nil && c.Returned && !c.cancelled && (s.Plan.Knobs.CancelLate == 0 || c.Probe) {
+			c.cancelled = true
+			c.cancel()
+			did = true
+		}
+	}
+	if did {
+		synctest.Wait()
+	}
+}
+
 func (s *Sys) stepOnce() bool {
 	ok := s.K.Step()
 	if ok {
 		synctest.Wait()
+		s.promptCancels()
 		if s.Rec != nil {
 			s.Rec.AfterStep()
 		}
@@ -593,17 +607,27 @@ func (s *Sys) Run() bool {
 	if cap == 0 {
 		cap = 40000
 	}
+	mainCap := cap / 2
+	heal := func() {
+		s.Healing = true
+		s.noFault = true
+		s.K.Fair = true
+		s.K.Trace = append(s.K.Trace, "heal")
+	}
 	for s.K.StepN < cap {
 		synctest.Wait()
 		s.fireFaults()
+		if !s.Healing && s.K.StepN >= mainCap {
+			// the main phase is bounded: whatever is still going on must finish under a fair schedule without faults
+			s.K.Probe("main-phase-cap")
+			heal()
+		}
 		if !s.stepOnce() {
 			if s.fireFaults() {
 				continue
 			}
 			if !s.Healing {
-				s.Healing = true
-				s.noFault = true
-				s.K.Trace = append(s.K.Trace, "heal")
+				heal()
 				continue
 			}
 			return true
